@@ -364,11 +364,6 @@ def _cell_do(d, s):
     return {"id": gf.shape_id}
 
 
-def _notes_do(d, s):
-    d.slide().notes_slide.notes_text_frame.text = s
-    return {}
-
-
 def _register():
     from pptx.enum.shapes import MSO_CONNECTOR, MSO_SHAPE
 
@@ -387,23 +382,13 @@ def _register():
         sink("name:" + k, "shape-name", _named(mk), name_api, xp=sp + "/@name")
     sink("name:title-placeholder", "shape-name", _named(lambda d, sl: sl.shapes.title, layout=0), name_api, xp=sp + "/@name")
 
-    def slide_name(d, s):
-        d.slide().name = s
-        return {}
-
-    def layout_name(d, s):
-        d.prs.slide_layouts[0].name = s
-        return {}
-
-    def master_name(d, s):
-        d.prs.slide_master.name = s
-        return {}
-
-    sink("name:slide", "slide-name", slide_name, lambda prs, h: prs.slides[0].name, xp="/p:sld/p:cSld/@name")
-    sink("name:layout", "slide-name", layout_name, lambda prs, h: prs.slide_layouts[0].name, member="ppt/slideLayouts/slideLayout1.xml", xp="/p:sldLayout/p:cSld/@name")
-    sink("name:master", "slide-name", master_name, lambda prs, h: prs.slide_master.name, member="ppt/slideMasters/slideMaster1.xml", xp="/p:sldMaster/p:cSld/@name")
+    put = lambda target, attr="name": lambda d, s: setattr(target(d), attr, s) or {}  # noqa: E731
+    sink("name:slide", "slide-name", put(lambda d: d.slide()), lambda prs, h: prs.slides[0].name, xp="/p:sld/p:cSld/@name")
+    sink("name:layout", "slide-name", put(lambda d: d.prs.slide_layouts[0]), lambda prs, h: prs.slide_layouts[0].name, member="ppt/slideLayouts/slideLayout1.xml", xp="/p:sldLayout/p:cSld/@name")
+    sink("name:master", "slide-name", put(lambda d: d.prs.slide_master), lambda prs, h: prs.slide_master.name, member="ppt/slideMasters/slideMaster1.xml", xp="/p:sldMaster/p:cSld/@name")
     for k in ("picture", "table", "chart"):
-        sink("placeholder-name>insert_" + k, "placeholder-name-into-" + k, _ph_reuse(k), name_api, xp=sp + "/@name")
+        # insert_picture -> CT_Picture.new_ph_pic; insert_table / insert_chart -> CT_GraphicalObjectFrame.new_graphicFrame
+        sink("placeholder-name>insert_" + k, "placeholder-name-into-" + ("picture" if k == "picture" else "graphic-frame"), _ph_reuse(k), name_api, xp=sp + "/@name")
 
     # ---- file names (the hostile string is the stem of a real file)
     png, mp4 = (lambda s: s + ".png"), (lambda s: s + ".mp4")
@@ -444,8 +429,8 @@ def _register():
     sink("number-format:chart-data", "number-format", _chart(lambda s: cat_data(nf=s)), None, CHART, val_xp)
     sink("number-format:series", "number-format", _chart(lambda s: cat_data(ser_nf=s)), None, CHART, val_xp)
     sink("number-format:replace_data", "number-format", _chart(lambda s: cat_data(nf=s), replace=True), None, CHART, val_xp)
-    sink("number-format:xy-series", "number-format", _chart(lambda s: xy_data("xy", ser_nf=s), "XY_SCATTER"), None, CHART, "//c:ser[1]/c:yVal//c:formatCode/text()")
-    sink("number-format:bubble-series", "number-format", _chart(lambda s: xy_data("bubble", ser_nf=s), "BUBBLE"), None, CHART, "//c:ser[1]/c:bubbleSize//c:formatCode/text()")
+    sink("number-format:xy-series", "number-format-xy", _chart(lambda s: xy_data("xy", ser_nf=s), "XY_SCATTER"), None, CHART, "//c:ser[1]/c:yVal//c:formatCode/text()")
+    sink("number-format:bubble-series", "number-format-xy", _chart(lambda s: xy_data("bubble", ser_nf=s), "BUBBLE"), None, CHART, "//c:ser[1]/c:bubbleSize//c:formatCode/text()")
     sink("number-format:data-point", "data-point-number-format", _chart(lambda s: xy_data("xy", pt_nf=s), "XY_SCATTER"), member=CHART)  # not stored in the chart part
     tick = lambda prs, h: chart_of(prs, h).category_axis.tick_labels.number_format  # noqa: E731
     # numeric categories: only c:cat//c:formatCode (the category axis keeps "General"); date categories: also c:dateAx/c:numFmt/@formatCode
@@ -476,7 +461,7 @@ def _register():
     sink("text:title-placeholder", "text", _text(lambda sh: sh.text_frame, layout=0), lambda prs, h: prs.slides[0].shapes.title.text_frame.text, xp=txb + "//a:t/text()",
          dom="text", breaks=True)
     sink("text:table-cell", "text", _cell_do, lambda prs, h: shape_of(prs, h).table.cell(0, 1).text, xp="//a:tbl/a:tr[1]/a:tc[2]//a:t/text()", dom="text", breaks=True)
-    sink("text:notes", "text", _notes_do, lambda prs, h: prs.slides[0].notes_slide.notes_text_frame.text, member="ppt/notesSlides/notesSlide1.xml",
+    sink("text:notes", "text", put(lambda d: d.slide().notes_slide.notes_text_frame, "text"), lambda prs, h: prs.slides[0].notes_slide.notes_text_frame.text, member="ppt/notesSlides/notesSlide1.xml",
          xp="//p:sp[p:nvSpPr/p:nvPr/p:ph/@type='body']//a:t/text()", dom="text", breaks=True)
 
     # ---- core properties: API name -> element of docProps/core.xml (OPC part 2, table of core properties)
@@ -485,7 +470,7 @@ def _register():
         "keywords": "cp:keywords", "language": "dc:language", "last_modified_by": "cp:lastModifiedBy", "subject": "dc:subject", "title": "dc:title", "version": "cp:version",
     }
     for prop, tag in core.items():
-        sink("core:" + prop, "core-property", (lambda prop: lambda d, s: setattr(d.prs.core_properties, prop, s) or {})(prop),
+        sink("core:" + prop, "core-property", put(lambda d: d.prs.core_properties, prop),
              (lambda prop: lambda prs, h: getattr(prs.core_properties, prop))(prop), CORE, "/cp:coreProperties/%s/text()" % tag)
 
 
